@@ -770,9 +770,11 @@ def run_property(chk, prop, laws, quick_gen=300, thorough_gen=4000, scns=None, n
             if fv.get("status") not in ("SUCCEEDED", "FAILED") and s.steps < 2500:
                 probs.append(("C02.terminal_reached", {"final": fv, "volatile": s.snapshot_volatile()}))
             # the reference semantics of the whole run is asked from the driver once, after all runs
-            # C09.history_matches_reference: where the reference semantics speaks about the run — a STANDARD execution of a
-            # machine without TimeoutSeconds, not under a stalled broker, workers driven by a plan (an oracle exists), ended
-            speaks = (pl is not None and kind != "stall" and "TimeoutSeconds" not in scn.machine
+            # C09.history_matches_reference: where the reference semantics speaks about the run — a STANDARD execution,
+            # not under a stalled broker, workers driven by a plan (an oracle exists), ended
+            # (a machine with an execution time limit: under the canonical schedule only — when the limit runs out relative
+            # to everything else is the schedule's otherwise)
+            speaks = (pl is not None and kind != "stall" and ("TimeoutSeconds" not in scn.machine or kind == "canonical")
                       and not scn.extra.get("machines") and not scn.extra.get("illformed")
                       and fv.get("status") in ("SUCCEEDED", "FAILED") and not s.errors)
             want_hist = "C09" in laws and speaks and scn.sm_type == "STANDARD"
@@ -791,7 +793,7 @@ def run_property(chk, prop, laws, quick_gen=300, thorough_gen=4000, scns=None, n
                 except fanproto.Unsupported as e:
                     chk.dist("fanproto.unsupported.%s" % e)
             pending_runs.append({"probs": probs, "case": case, "hand": hand, "kind": kind, "fan": ab,
-                                 "reqs": [{"t": q["t"], "queue": q["queue"], "payload": q["payload"]} for q in s.rpc_requests],
+                                 "reqs": enginerun.annotate_due([{"t": q["t"], "queue": q["queue"], "payload": q["payload"]} for q in s.rpc_requests], pl),
                                  "oracle": pl.oracle() if pl is not None else None, "ea": ea,
                                  "hist": (list(getattr(mon, "final_history", []) or []), len(s.rpc_requests),
                                           [q["t"] for q in s.rpc_requests]) if want_hist else None,
@@ -860,11 +862,11 @@ def run_property(chk, prop, laws, quick_gen=300, thorough_gen=4000, scns=None, n
                 probs = probs + [("C09.history_matches_reference", {"mode": mode, "differences": hp})]
         if pr["notes"] is not None and mo is not None:
             nmode, np_ = enginerun.compare_notifications(mo, pr["notes"], pr["case"]["input"], timed=pr["kind"] == "canonical",
-                                                            requests=pr["reqs"])
+                                                            requests=pr["reqs"], machine=pr["case"]["machine"])
             chk.dist("notifications_vs_reference.%s.%s" % (pr["kind"], nmode))
             if np_:
                 probs = probs + [("C11.notifications_match_reference", {"differences": np_})]
-        if pr.get("frames") is not None and mo is not None:
+        if pr.get("frames") is not None and mo is not None and not enginerun.time_limit_incomparable(pr["case"]["machine"], mo, pr["reqs"]):
             probs = probs + frames_law(chk, pr["case"]["machine"], mo, pr["frames"])
         seen = set()
         for law, detail in probs:
@@ -915,7 +917,7 @@ def run_property(chk, prop, laws, quick_gen=300, thorough_gen=4000, scns=None, n
                        "branch / item; Fail-vs-Wait-vs-Task siblings; nesting) under the canonical and %d seeded random schedules, "
                        "plus generated machines (canonical + 1 random schedule); the laws are evaluated after every step; "
                        "distinct = distinct (scenario, schedule); non-trivial = more than 2 steps; C09.history_matches_reference: "
-                       "for STANDARD executions that ended (no TimeoutSeconds, no stalled broker) the complete history (type, name, "
+                       "for STANDARD executions that ended (no stalled broker; machines with a top-level TimeoutSeconds under the canonical schedule only) the complete history (type, name, "
                        "compared details, ids 1..n; …Aborted left out) and the number of task requests are compared with the history "
                        "Asl.run predicts under every explored schedule — as sequences without fan-outs, as multisets with fan-outs "
                        "none of which failed, inclusion of the Execution… / StateExited / LambdaFunctionSucceeded events otherwise; "
